@@ -890,6 +890,62 @@ def _setdefault_stmt(s):
     return new
 
 
+def _groups_unpack(s):
+    """a, b, c = M.groups()   ->   a = M.group(1) ; b = M.group(2) ; c = M.group(3)"""
+    if not (isinstance(s, ast.Assign) and len(s.targets) == 1 and isinstance(s.targets[0], ast.Tuple) and all(isinstance(e, ast.Name) for e in s.targets[0].elts)):
+        return None
+    c = s.value
+    if not (isinstance(c, ast.Call) and isinstance(c.func, ast.Attribute) and c.func.attr == "groups" and not c.args and not c.keywords and isinstance(c.func.value, ast.Name)):
+        return None
+    out = []
+    for k, tgt in enumerate(s.targets[0].elts, start=1):
+        call = ast.Call(func=ast.Attribute(value=ast.Name(id=c.func.value.id, ctx=ast.Load()), attr="group", ctx=ast.Load()), args=[ast.Constant(value=k)], keywords=[])
+        a = ast.Assign(targets=[ast.Name(id=tgt.id, ctx=ast.Store())], value=call)
+        for x in ast.walk(a):
+            ast.copy_location(x, s)
+        out.append(ast.fix_missing_locations(a))
+    return out
+
+
+def _dict_update_stmt(s):
+    """D.update(k1=v1, k2=v2)  /  D.update({"k1": v1, ...})   (statement, D a plain name)   ->   D["k1"] = v1 ; D["k2"] = v2"""
+    if not (isinstance(s, ast.Expr) and isinstance(s.value, ast.Call)):
+        return None
+    c = s.value
+    if not (isinstance(c.func, ast.Attribute) and c.func.attr == "update" and isinstance(c.func.value, ast.Name)):
+        return None
+    pairs = []
+    if c.keywords and not c.args and all(k.arg for k in c.keywords):
+        pairs = [(ast.Constant(value=k.arg), k.value) for k in c.keywords]
+    elif len(c.args) == 1 and not c.keywords and isinstance(c.args[0], ast.Dict) and all(isinstance(k, ast.Constant) for k in c.args[0].keys):
+        pairs = list(zip(c.args[0].keys, c.args[0].values))
+    if not pairs:
+        return None
+    out = []
+    for k, v in pairs:
+        a = ast.Assign(targets=[ast.Subscript(value=ast.Name(id=c.func.value.id, ctx=ast.Load()), slice=k, ctx=ast.Store())], value=v)
+        for x in ast.walk(a):
+            if not hasattr(x, "lineno"):
+                ast.copy_location(x, s)
+        ast.copy_location(a, s)
+        out.append(ast.fix_missing_locations(a))
+    return out
+
+
+class _DictCall(ast.NodeTransformer):
+    """dict(k1=v1, k2=v2)  ->  {"k1": v1, "k2": v2}"""
+
+    def visit_Call(self, c):
+        self.generic_visit(c)
+        if isinstance(c.func, ast.Name) and c.func.id == "dict" and not c.args and c.keywords and all(k.arg for k in c.keywords):
+            d = ast.Dict(keys=[ast.Constant(value=k.arg) for k in c.keywords], values=[k.value for k in c.keywords])
+            for x in ast.walk(d):
+                if not hasattr(x, "lineno"):
+                    ast.copy_location(x, c)
+            return ast.copy_location(d, c)
+        return c
+
+
 def _cond_value(fn, s1, s2):
     """v = A if c else B ; <simple statement using v exactly once, v used nowhere else>
          ->  if c: <statement with A> else: <statement with B>"""
@@ -1019,6 +1075,7 @@ def cond_value_candidates(tree):
 
 def normalise_idioms(tree) -> int:
     n = _unguard(tree)
+    _DictCall().visit(tree)
     keep = _baseline_cond_values()
     for fn in [x for x in ast.walk(tree) if isinstance(x, ast.FunctionDef)]:
         for node in ast.walk(fn):
@@ -1070,7 +1127,7 @@ def normalise_idioms(tree) -> int:
                         n += 1
             k = 0
             while k < len(blk):
-                two = _span_unpack(blk[k])
+                two = _span_unpack(blk[k]) or _groups_unpack(blk[k]) or _dict_update_stmt(blk[k])
                 if two is not None:
                     blk[k:k + 1] = two
                     n += 1
